@@ -255,7 +255,7 @@ pub(crate) fn world() -> World {
     let id = unsafe { Id::from_index(7) };
     // SAFETY: single-threaded harness
     unsafe { WORLD_CUR = r0.as_usize() };
-    World { db: HDb { zalsa: z, local: ZalsaLocal::new() }, ing, id, cur: r0 }
+    World { db: HDb { zalsa: z, local: crate::zalsa_local::verif::local_static() }, ing, id, cur: r0 }
 }
 /// A final, fully tracked derived memo without edges (the dependencies are behind the stubbed `verify_memo`).
 pub(crate) fn memo(value: Option<u32>, verified_at: Revision, d: Durability, changed_at: Revision) -> &'static Memo<CGen> {
@@ -598,7 +598,7 @@ fn g_cycle_1_reentry_with_poisoned_memo() {
     let ing = IngredientImpl::<CGenFix>::new(IngredientIndex::new(2), crate::memo_ingredient_indices::verif::singleton(0), 0);
     // SAFETY: small index
     let id = unsafe { Id::from_index(7) };
-    let db = HDb { zalsa: z, local: ZalsaLocal::new() };
+    let db = HDb { zalsa: z, local: crate::zalsa_local::verif::local_static() };
     let me = ing.database_key_index(id);
     let stored: bool = vk::any();
     let va = vk::any_revision();
